@@ -44,28 +44,33 @@ def run(run):
     run.floor("Edge variants", len(EV), 8)
 
     def r1():
+        from .lib import peval as PE
         ms = T.find_matches(f_reach["body"], adt_suffix="graph::Edge")
-        # the match that classifies all variants (most arms / variants covered)
-        best = None
-        for m in ms:
-            cov = set()
-            for arm in m["arms"]:
-                cov |= T.pat_variant_names(arm["p"])
-            if best is None or len(cov) > len(best[1]):
-                best = (m, cov)
-        if best is None:
+        if not ms:
             raise T.AnchorMissing("no match over Edge in is_sink_call_reachable_from_source_call")
-        m, cov = best
-        wild = T.WILD in cov
-        run.check("R1", "exhaustive-without-wildcard", not wild, "the classification of edge kinds uses a wildcard arm: a new edge kind would silently be %s" % "classified", F.loc(m))
+        # the loop over the outgoing edges of the node taken from the worklist
+        loops = [(n, p_, it, b) for (n, p_, it, b) in T.for_loops(f_reach["body"]) if any(T.is_call(x, ("edges", "edges_directed")) for x in T.walk(it))]
+        if not loops:
+            raise T.AnchorMissing("no loop over graph.edges(node) in is_sink_call_reachable_from_source_call")
+        body = loops[0][3]
+        scrutinees = {id(T.peel(m["e"])) for m in ms} | {id(m["e"]) for m in ms}
+        wild = any(T.WILD in T.pat_variant_names(a["p"]) for m in ms for a in m["arms"]) and not any(not (T.pat_variant_names(a["p"]) - {T.WILD}) and False for m in ms for a in m["arms"])
+        # a wildcard in the classification of edge KINDS (not in an inner match over the jump term) hides new edge kinds
+        kind_wild = any(T.WILD in T.pat_variant_names(a["p"]) for m in ms for a in m["arms"] if len(m["arms"]) >= 3)
+        (run.holds if not kind_wild else run.undecided)("R1", "exhaustive-without-wildcard", "the classification of edge kinds uses a wildcard arm: a new edge kind would silently fall into it", F.loc(ms[0]))
         for v in EV:
-            arms = T.arms_for_variant(m, v)
-            if not arms:
-                run.violated("R1", "edge|%s" % v, "no arm for Edge::%s" % v, F.loc(m))
-                continue
-            follows = any(T.is_call(x, ("push", "push_back", "insert", "extend")) for x in T.walk(arms[0]["b"]))
+            spec = PE.Spec(F, assume=lambda n, v=v: ("enum", v) if id(n) in scrutinees else None)
+            nodes = spec.reach(body, {})
+            follows = any(T.is_call(x, ("push", "push_back", "push_front")) or (T.is_call(x, ("insert", "extend")) and "worklist" in T.show(x["a"][0])) for x in nodes)
             want = v not in LEAVING
-            run.check("R1", "edge|%s" % v, follows == want, "Edge::%s %s the function; the search %s it" % (v, "stays inside" if want else "leaves", "follows" if follows else "does not follow"), F.loc(arms[0]["b"]))
+            site = F.loc(body)
+            if follows == want:
+                run.holds("R1", "edge|%s" % v, "", site)
+            elif follows and not want:
+                run.violated("R1", "edge|%s" % v, "Edge::%s leaves the function; the search follows it (the target of the edge can be put on the worklist)" % v, site)
+            else:
+                # not following an intraprocedural edge: evidence is that NO push is reachable for this edge kind
+                run.violated("R1", "edge|%s" % v, "Edge::%s stays inside the function; for this edge kind no path through the loop body reaches the worklist push" % v, site)
 
     run.guarded("R1", r1)
 
@@ -107,12 +112,63 @@ def run(run):
                     conts = [x for x in T.walk(n["th"]) if x.get("k") == "Continue"]
                     pushes = [x for x in T.walk(n["th"]) if T.is_call(x, "push")]
                     src_ok = bool(conts) and not pushes
-        if sink_ok is None:
+        # scenario evaluation by specialisation: the edge is an ExternCallStub of a direct call whose target is (a) another
+        # call to the source symbol, (b) a call to the sink symbol
+        from .lib import peval as PE
+        loops = [(n_, p_, it, b) for (n_, p_, it, b) in T.for_loops(f_reach["body"]) if any(T.is_call(x, ("edges", "edges_directed")) for x in T.walk(it))]
+        ms_e = T.find_matches(f_reach["body"], adt_suffix="graph::Edge")
+        scr = {id(T.peel(m["e"])) for m in ms_e} | {id(m["e"]) for m in ms_e}
+
+        def scenario(src_val, sink_val):
+            hits = {"src": 0, "sink": 0}
+
+            def assume(n):
+                if id(n) in scr:
+                    return ("enum", "ExternCallStub")
+                if n.get("k") in ("Deref", "Borrow", "Field", "Var") and F.ty(n).replace("&", "").strip().endswith("jmp::Jmp") and n.get("k") != "Var":
+                    return ("enum", "Call")
+                is_cmp = (n.get("k") == "Call" and n.get("n") in ("eq", "ne") and len(n.get("a", [])) == 2) or (n.get("k") == "Binary" and n.get("o") in ("Eq", "Ne"))
+                if is_cmp:
+                    txt = T.show(n)
+                    neg = (n.get("n") == "ne") or (n.get("o") == "Ne")
+                    if "source_symbol" in txt and "sink_symbol" not in txt:
+                        hits["src"] += 1
+                        return ("bool", src_val != neg)
+                    if "sink_symbol" in txt and "source_symbol" not in txt:
+                        hits["sink"] += 1
+                        return ("bool", sink_val != neg)
+                return None
+            spec = PE.Spec(F, assume=assume)
+            nodes = spec.reach(loops[0][3], {}) if loops else []
+            push = any(T.is_call(x, ("push", "push_back")) or (T.is_call(x, ("insert", "extend")) and "worklist" in T.show(x["a"][0])) for x in nodes)
+            rets = [x for x in nodes if x.get("k") == "Return" and x.get("e") is not None]
+            return push, rets, hits
+        if sink_ok is None and loops:
+            push, rets, hits = scenario(False, True)
+            if not hits["sink"]:
+                run.undecided("R2", "sink-call-returns-its-tid", "no comparison with sink_symbol found", site)
+            else:
+                good = any(any(y.get("k") == "Field" and y.get("fn") == "tid" for y in T.walk(r["e"])) and any(y.get("k") == "Adt" and y.get("v") == "Some" for y in T.walk(r["e"])) for r in rets)
+                if good and not push:
+                    run.holds("R2", "sink-call-returns-its-tid", "", site)
+                elif not rets:
+                    run.violated("R2", "sink-call-returns-its-tid", "for an edge that is a call to the sink symbol no `return Some(tid)` is reachable", site)
+                else:
+                    run.undecided("R2", "sink-call-returns-its-tid", "returned value not recognised", site)
+        elif sink_ok is None:
             run.undecided("R2", "sink-call-returns-its-tid", "no `target == sink_symbol` test found", site)
         else:
             run.check("R2", "sink-call-returns-its-tid", sink_ok, "reaching a call to the sink must return the tid of that call", site)
-        if src_ok is None:
-            run.violated("R2", "source-call-stops-search", "the search no longer stops at another call to the source symbol (`target == source_symbol => continue`)", site)
+        if src_ok is None and loops:
+            push, rets, hits = scenario(True, False)
+            if not hits["src"]:
+                run.violated("R2", "source-call-stops-search", "nothing in the search compares a call target with the source symbol: the search no longer stops at another call to the source", site)
+            elif push:
+                run.violated("R2", "source-call-stops-search", "for an edge that is another call to the source symbol the worklist push is still reachable: the search continues past it", site)
+            else:
+                run.holds("R2", "source-call-stops-search", "", site)
+        elif src_ok is None:
+            run.undecided("R2", "source-call-stops-search", "loop over the edges not found", site)
         else:
             run.check("R2", "source-call-stops-search", src_ok, "a further call to the source must skip the edge without enqueuing its target", site)
         # the sink/source tests must be applied to EVERY outgoing edge: they may not depend on the visited set
